@@ -259,3 +259,15 @@ def check_has_digest(ctx, inst):
                 ctx.ok(inst, ctx.site(b, bi, si), 'EnvelopeCase::%s(x) built only on the passing edge of x.has_digest(); %s' % (variant, info))
             else:
                 ctx.fail(inst, ctx.site(b, bi, si), 'EnvelopeCase::%s can be built without a declared digest: %s' % (variant, info), key='%s|%s' % (inst, variant))
+
+
+_check_inner = check
+
+
+def check(ctx):
+    _check_inner(ctx)
+    from .. import panic
+    F = ctx.F
+    entries = F.trait_impl('CBORTaggedDecodable', 'Envelope', 'from_untagged_cbor') + F.trait_impl('TryFrom', 'Envelope', 'try_from', trait_full_contains='CBOR') \
+        + [F.method1('Envelope', 'try_from_cbor_data'), F.method1('Envelope', 'try_from_cbor')]
+    panic.slice_check(ctx, 'C06.9', entries, 'decode')
